@@ -170,7 +170,7 @@ def check_values(ctx, leaves):
                 r = okq[0].ret
                 conv = TryOk(Call("Result::ok", Call("TryInto::try_into", lambda e: opnd(e) == "b", nargs=1), nargs=1))
                 good = opnd(r[3][0]) == "a" and match(r[3][1], conv)
-                term = ctx.F.fns[r[3][1][1][3][0][3][0][4][0]].blocks[r[3][1][1][3][0][3][0][4][1]]["term"] if good else None
+                term = ctx.F.fns[r[3][1][1][3][0][3][0][4][-2]].blocks[r[3][1][1][3][0][3][0][4][-1]]["term"] if good else None
                 good = good and any(t.get("s") == "u32" for t in (term or {}).get("targs", []))
                 good = good and callee_is(nq[0].ret, "FromResidual::from_residual")
         elif kind == "cmp":
@@ -601,7 +601,7 @@ def check_common_values(ctx):
     ok = len(ps) == 1 and match(ps[0].ret, Through(Call("HasStack::with_push", Param(2), Call("Stack::is_empty", stack_of, nargs=1), nargs=2), calls=("MapInstructionError::map_err_into",)))
     if ok:
         c = [x for x in ps[0].calls() if callee_is(x, "HasStack::stack")][0]
-        t = ctx.F.fns[c[4][0]].blocks[c[4][1]]["term"]
+        t = ctx.F.fns[c[4][-2]].blocks[c[4][-1]]["term"]
         ok = (t.get("targs") or [{}, {}])[1].get("s") == "T"
     ctx.check(ok, "R01.3", "IsEmpty/pushes-is_empty-of-its-own-stack", short(ps[0].ret, 5) if ps else "-", f.at())
     f = ctx.trait_fn(I, C + "stack_depth::StackDepth<T>")
@@ -609,7 +609,7 @@ def check_common_values(ctx):
     ok = len(ps) == 1 and match(ps[0].ret, Through(Call("HasStack::with_push", Param(2), Call("Result::unwrap_or", Call("TryInto::try_into", Call("Stack::size", stack_of, nargs=1), nargs=1), ANY, nargs=2), nargs=2), calls=("MapInstructionError::map_err_into",)))
     if ok:
         c = [x for x in ps[0].calls() if callee_is(x, "HasStack::stack")][0]
-        t = ctx.F.fns[c[4][0]].blocks[c[4][1]]["term"]
+        t = ctx.F.fns[c[4][-2]].blocks[c[4][-1]]["term"]
         ok = (t.get("targs") or [{}, {}])[1].get("s") == "T"
     ctx.check(ok, "R01.3", "StackDepth/pushes-size-of-its-own-stack-as-i64", short(ps[0].ret, 6) if ps else "-", f.at())
     so = ctx.trait_fn("push::push_vm::push_io::HasStdout::stdout", "push::push_vm::push_state::PushState")
